@@ -221,3 +221,23 @@ func Finished(id int) bool { return false }
 // Unfinished returns the number of other harness threads (goroutines started by the
 // harness or by the code under test) that have not returned. Natively it is unknown (0).
 func Unfinished() int { return 0 }
+
+// UseModel switches the replay to another model file (native only).
+func UseModel(path string) {
+	mu.Lock()
+	loaded = false
+	os.Setenv("VRT_MODEL", path)
+	mu.Unlock()
+}
+
+// HasCover reports whether the label was reached in the last native run.
+func HasCover(label string) bool {
+	mu.Lock()
+	defer mu.Unlock()
+	for _, c := range Covered {
+		if c == label {
+			return true
+		}
+	}
+	return false
+}
